@@ -66,6 +66,11 @@ pub(super) fn extract_default_aliases(
         }
     }
 
+    // The start rule appears unaliased as the root of every tree.
+    if let Some(status) = non_terminal_status_list.first_mut() {
+        status.appears_unaliased = true;
+    }
+
     for symbol in &meta.extra_symbols {
         let symbol_index = symbol.index as usize;
         let status = match symbol.kind {
